@@ -15,7 +15,7 @@ def make(cls, x, NFFT=None, sampling=1.0, scale_by_freq=False, **o):
     if cls == 'Periodogram':
         return spectrum.Periodogram(x, window=o.get('window', 'hann'), **kw)
     if cls == 'pcorrelogram':
-        return spectrum.pcorrelogram(x, lag=o['lag'], window=o.get('window', 'hamming'), **kw)
+        return spectrum.pcorrelogram(x, lag=o['lag'], window=o.get('window', 'hamming'), **kw)       # other keys of o (e.g. 'structural') are check-side flags
     if cls == 'pburg' and o.get('criteria'):
         return spectrum.pburg(x, o['order'], criteria=o['criteria'], **kw)       # order = upper bound, the criterion selects
     if cls in AR_LIKE or cls == 'pminvar':
